@@ -85,12 +85,12 @@ def bundle_of(length, seed):
     return bytes(((pos * 41) ^ (seed * 13) ^ (pos >> 8) ^ 0x6b) & 0xFF for pos in range(length))
 
 
-def check_send(length, mtu, obs, skip_ids=0):
+def check_send(length, mtu, obs, skip_ids=0, salt=0):
     node = BtpuNode(mtu)
     problems = []
     try:
         node.agent._tx_id = skip_ids
-        bundle = bundle_of(length, length)
+        bundle = bundle_of(length, length + salt * 7919)
         node.call('send_bundle_data', dbus.ByteArray(bundle), dbus.Dictionary({'address': PEER_MAC, 'local_if': IF_NAME}, signature='sv'))
         res = node.sim.settle(50000)
         obs['sends'] += 1
@@ -177,10 +177,14 @@ def check_receive(arrivals, originals, obs):
                 if not owners:
                     problems.append('arrival %d: queued item of %d octets equals no bundle that was sent' % (step, len(data)))
                     continue
-                okey = owners[0]
-                if got_idx[okey] != set(range(originals[okey][1])):
+                # (two transfers may carry equal octets: attribute the copy to a complete one that has none yet)
+                complete = sorted((okey for okey in owners if got_idx[okey] == set(range(originals[okey][1]))), key=lambda okey: copies[okey])
+                if not complete:
+                    okey = owners[0]
                     problems.append('arrival %d: bundle queued while segments %s are missing' % (
                         step, sorted(set(range(originals[okey][1])) - got_idx[okey])))
+                else:
+                    okey = complete[0]
                 copies[okey] += 1
             if problems:
                 break
@@ -368,7 +372,7 @@ def run_case(case):
                 key = (peer, skip)
                 if key in originals:
                     continue
-                problems, payloads, bundle = check_send(length, mtu, obs, skip_ids=skip)
+                problems, payloads, bundle = check_send(length, mtu, obs, skip_ids=skip, salt=tnum + 1)
                 if problems or len(payloads) < 2:
                     continue
                 originals[key] = (bundle, len(payloads))
